@@ -146,6 +146,17 @@ class IH5MFRecord(IH5Record):
     def _open(cls, paths: List[Path], **kwargs):
         manifest_file: Optional[Path] = kwargs.pop("manifest_file", None)
         ret: IH5MFRecord = super()._open(paths, **kwargs)
+        try:
+            ret._load_manifest(manifest_file)
+        except Exception:
+            for f in ret._files:  # do not keep files of a rejected set open
+                f.close()
+            raise
+        return ret
+
+    def _load_manifest(self, manifest_file: Optional[Path]):
+        """Load and check the latest manifest (helper for `_open`)."""
+        cls, ret = type(self), self
 
         # if not given explicitly, infer correct manifest filename
         # based on logically latest container (they are sorted after parent init)
@@ -170,7 +181,6 @@ class IH5MFRecord(IH5Record):
             # if ubext.manifest_uuid != self._manifest.manifest_uuid:
             #     raise ValueError(f"{ub._filename}: Manifest file has wrong UUID!")
         # all looks good
-        return ret
 
     # Override to also check user block extension
     def _check_ublock(
